@@ -17,6 +17,7 @@ import (
 	"sync"
 	"time"
 
+	"github.com/vulcand/oxy/v2/buffer"
 	"github.com/vulcand/oxy/v2/cbreaker"
 	"github.com/vulcand/oxy/v2/connlimit"
 	"github.com/vulcand/oxy/v2/internal/holsterv4/clock"
@@ -402,6 +403,70 @@ func tracer() *sched.Instance {
 	return inst
 }
 
+// bufferOverlap: two clients with different bodies go through ONE Buffer at the same time (retry configured,
+// the first attempt of each fails): every attempt must see its own client's body, every client must get its
+// own final response - and nothing inside the middleware may be shared without synchronisation.
+func bufferOverlap() *sched.Instance {
+	var mu sync.Mutex // the shim's mutex: a scheduling point, so attempts interleave
+	attempts := map[string]int{}
+	var wrong []string
+	h := http.HandlerFunc(func(w http.ResponseWriter, r *http.Request) {
+		id := r.Header.Get("Id")
+		body, _ := io.ReadAll(r.Body)
+		mu.Lock()
+		attempts[id]++
+		n := attempts[id]
+		if string(body) != "body-of-"+id {
+			wrong = append(wrong, fmt.Sprintf("attempt %d of %s read body %q", n, id, body))
+		}
+		mu.Unlock()
+		vrt.Yield()
+		w.Header().Set("X-Echo", id)
+		if n == 1 {
+			w.WriteHeader(502)
+			w.Write([]byte("failed-" + id))
+			return
+		}
+		w.WriteHeader(200)
+		w.Write([]byte("answer-for-" + id))
+	})
+	b, err := buffer.New(h, buffer.Retry("IsNetworkError() && Attempts() < 3"))
+	if err != nil {
+		panic(err)
+	}
+	type got struct {
+		code int
+		echo string
+		body string
+	}
+	res := map[string]*got{"a": {}, "b": {}}
+	do := func(id string) {
+		rec := httptest.NewRecorder()
+		req := httptest.NewRequest("POST", "http://client/", strings.NewReader("body-of-"+id))
+		req.Header.Set("Id", id)
+		b.ServeHTTP(rec, req)
+		*res[id] = got{rec.Code, rec.Header().Get("X-Echo"), rec.Body.String()}
+	}
+	inst := &sched.Instance{Names: []string{"client-a", "client-b"}}
+	inst.Bodies = []func(){func() { do("a") }, func() { do("b") }}
+	inst.Check = func(*vrt.Exec) []vrt.Failure {
+		var f []vrt.Failure
+		for _, w := range wrong {
+			f = append(f, fail("cross-talk:buffer-request", "%s", w))
+		}
+		for id, g := range res {
+			if g.code != 200 || g.echo != id || g.body != "answer-for-"+id {
+				f = append(f, fail("cross-talk:buffer-response", "client %s received status %d, X-Echo %q, body %q", id, g.code, g.echo, g.body))
+			}
+		}
+		if attempts["a"] != 2 || attempts["b"] != 2 {
+			f = append(f, fail("lost-update:buffer", "each request fails once and is retried once: attempts %v", attempts))
+		}
+		return f
+	}
+	return inst
+}
+
 func stack() *sched.Instance {
 	c := &counter{}
 	rr, _ := roundrobin.New(okHandler(c, true))
@@ -443,6 +508,7 @@ func Scenarios(tier string) []*sched.Scenario {
 		mk("ttlmap", b, up, ttlMap),
 		mk("connlimiter", -1, false, connLimiter),
 		mk("tracer", -1, false, tracer),
+		mk("buffer-overlap", b, false, bufferOverlap),
 		mk("stack", b-1, false, stack),
 	}
 }
